@@ -131,6 +131,9 @@ func (t *sysTranslator) translate() (labels []string, bad string) {
 		if bad != "" {
 			break
 		}
+		if qForeignEvent(e.Kind) {
+			continue // hooks of other families (write path, scan buffers, channel helpers)
+		}
 		// harness events: A is the scenario query index
 		switch e.Kind {
 		case "caller.cancel.begin":
@@ -488,4 +491,15 @@ func linearizeReceives(labels []string) []string {
 		out = append(out, l)
 	}
 	return out
+}
+
+// qForeignEvent reports hook events that belong to other families' instrumentation and carry no
+// information for the read-pipeline models.
+func qForeignEvent(kind string) bool {
+	for _, p := range []string{"send.", "sb.", "scan.row", "actor.", "fl.", "fq.", "flush.", "ingest.", "worker.", "stop.", "start", "ctx.cancel", "mg."} {
+		if strings.HasPrefix(kind, p) {
+			return true
+		}
+	}
+	return false
 }
